@@ -78,22 +78,27 @@ def _worker(cond, budget, wfd, seed):
         res = engine.explore(cond, budget, seed=seed)
         res['functions'] = []
         res['native_ok'] = 0
-        for sample in res['samples'][:1]:
+        # Every realised sample input is re-executed natively (no CrossHair models involved).  A
+        # sample that fails natively although its symbolic path passed (behaviour that depends on
+        # something the models hide, e.g. hash iteration order) is a counterexample candidate.
+        for n, sample in enumerate(res['samples']):
             try:
-                verdict, funcs = profile_native(cond, sample)
-                res['functions'] = funcs
-                if verdict == 'ok':
-                    res['native_ok'] += 1
+                if n == 0:
+                    verdict, funcs = profile_native(cond, sample)
+                    res['functions'] = funcs
                 else:
-                    res['native_mismatch'] = f'sample {sample!r} natively gives {verdict}'
+                    verdict, _ = run_native(cond, sample)
             except BaseException as exc:  # noqa
                 res['native_mismatch'] = f'native run failed: {exc!r}'
-        for sample in res['samples'][1:]:
-            verdict, _ = run_native(cond, sample)
+                continue
             if verdict == 'ok':
                 res['native_ok'] += 1
-            else:
-                res['native_mismatch'] = f'sample {sample!r} natively gives {verdict}'
+            elif verdict != 'assumption-failed':
+                res.setdefault('cexs', []).append({'args': sample, 'verdict': str(verdict), 'detail': 'found by the native '
+                                                   're-execution of a sample input', 'where': ''})
+                if res.get('cex') is None:
+                    res['cex'] = res['cexs'][-1]
+                res['status'] = 'REFUTED'
     except BaseException as exc:  # noqa
         res = {'id': cond.id, 'status': 'ERROR', 'reason': traceback.format_exc()[-3000:],
                'paths': 0, 'ok_paths': 0}
